@@ -432,6 +432,8 @@ LSS_CLASSES = {"MultiLanguageNameType": "construct_multi_language_name_type", "M
 
 
 def build(repo: str) -> Dict[str, Any]:
+    J.XSD_NAMES.clear()
+    J.XSD_NAMES.update(J.xsd_names(repo))
     enums = J.enum_tables(repo)
     graph = J.class_graph(repo)
     w = W(repo)
@@ -470,7 +472,7 @@ def build(repo: str) -> Dict[str, Any]:
 
     table = []
     classes = [c for c in meta.META] + ["ValueList", "OperationVariable"] + ["LangString" + c for c in LSS_CLASSES]
-    helper_spec = {"ValueList": [("__items__", "set:node:ValueReferencePair")], "OperationVariable": [("__self__", "node:SubmodelElement")]}
+    helper_spec = {"ValueList": [("__items__", "set1:node:ValueReferencePair")], "OperationVariable": [("__self__", "node:SubmodelElement")]}
     for cls in classes:
         if cls.startswith("LangString"):
             lc = cls[len("LangString"):]
@@ -620,10 +622,22 @@ def build(repo: str) -> Dict[str, Any]:
             "readerFunc": {c: f for c, f in READER_FUNC.items() if c in graph}}
 
 
+def xsd_group_of(cls: str) -> str:
+    special = {"DataSpecificationIEC61360": "dataSpecificationIec61360", "ExternalReference": "reference", "ModelReference": "reference",
+               "LangStringMultiLanguageNameType": "langStringNameType", "LangStringMultiLanguageTextType": "langStringTextType",
+               "LangStringDefinitionTypeIEC61360": "langStringDefinitionTypeIec61360",
+               "LangStringPreferredNameTypeIEC61360": "langStringPreferredNameTypeIec61360",
+               "LangStringShortNameTypeIEC61360": "langStringShortNameTypeIec61360"}
+    return special.get(cls, cls[0].lower() + cls[1:])
+
+
 def emit_lean(data: Dict[str, Any]) -> str:
     txt = J.emit_lean(data, name="xmlTable", namespace="Basyx.Gen.Xml")
     extra = ["/-- tag -> class dispatch of the XML reader (construct_submodel_element / construct_data_element / …) -/",
              "def readerDispatch : List (String × String) := [" + ", ".join(f"({J.lstr(t)}, {J.lstr(c)})" for t, c in sorted(data["readerDispatch"].items())) + "]",
+             "", "/-- SPEC mapping: class -> name of its xs:group in the official XSD -/",
+             "def groupOf : List (String × String) := [" + ", ".join(
+                 f"({J.lstr(ct['cls'])}, {J.lstr(xsd_group_of(ct['cls']))})" for ct in data["table"]) + "]",
              "", "/-- object_to_xml_element: first-match isinstance chain (type, serialiser) -/",
              "def writerDispatch : List (String × String) := [" + ", ".join(f"({J.lstr(t)}, {J.lstr(f)})" for t, f in data["writerDispatch"]) + "]",
              "", "/-- read_aas_xml_element: XMLConstructables member -> constructor -/",
